@@ -82,15 +82,24 @@ def state_eq(I, a, b, memo=None):
     if isinstance(a, Obj) and isinstance(b, Obj):
         ka = {k for k in a.__dict__ if k != "_cls"}
         kb = {k for k in b.__dict__ if k != "_cls"}
+        extra_goals = []
         if getattr(getattr(a, "_cls", None), "__name__", None) in ("DDLParser", "Parser") and kb <= ka:
             # the parser object: an attribute the function under verification adds and the reference does not know is
             # incidental bookkeeping as far as THIS contract goes (a, the first argument, is always the function's side);
             # whether it may survive a run is the init-before-use frame obligation's business.  Not so for table objects:
             # every attribute of a table is reported (to_dict walks __dict__).
+            # An attribute that a freshly constructed parser HAS is not bookkeeping: a contract that does not mention it
+            # reads it as that fresh value, so the function must leave it at that value (frame).
+            from .interp import _MISSING, _fresh_parser_attr
+            for k in sorted(ka - kb):
+                d = _fresh_parser_attr(a._cls, k)
+                if d is not _MISSING:
+                    extra_goals.append(I.eq(a.__dict__[k], d))
             ka = kb
         if ka != kb:
             return False
-        return I.and_all([state_eq(I, a.__dict__[k], b.__dict__[k], memo) for k in sorted(ka)])
+        return I.and_all(extra_goals + [state_eq(I, a.__dict__[k], b.__dict__[k], memo) for k in sorted(ka)])
+
     if isinstance(a, MDict) and isinstance(b, MDict):
         # keys that are maybe-present in both under the same condition need no case split:
         # compare their values under that condition
